@@ -41,8 +41,8 @@ SPEC = dict(
           "sequence inside a repeat, match_insensitive ending inside a char, the canonical witness of the tag finding)."),
     level_text=("Exploration: the real ParserState/Position/Stack code is executed on generated call trees and inputs, in both feature "
                 "configurations, while a copy-everything model of the documented contracts judges the complete state after every single call; "
-                "the two builds' state digests are additionally compared with each other. It reaches all 27 public operations in every nesting "
-                "the generator emits up to depth 6 (counters per operation/outcome, lookahead nesting up to 4-5, up to 6 open stack checkpoints, "
+                "the two builds' state digests are additionally compared with each other. It reaches all 24 state-transforming public operations (plus the position()/atomicity() accessors) in every nesting "
+                "the generator emits up to depth 6 (counters per operation/outcome, lookahead nesting up to 4, up to 5 open stack checkpoints, "
                 "skip_until with 0..4 needles), not all programs and not inputs longer than 16 chars."),
     level_note=("Trusted: the ~300-line model harness/mon_state/src/c03_model.rs (its header lists every reading of the documentation it makes) and the "
                 "hook verif_snapshot(). Where the documentation is silent the model promises nothing: optional/repeat/rule/atomic/stack_push restore "
